@@ -714,3 +714,77 @@ Section ToksTree.
     destruct (tag_toks_ok _ _ kids Hq Ha K1 K2) as [T1 [T2 _]]. cbn [toks_root]. split; assumption.
   Qed.
 End ToksTree.
+
+(* ---- the facts about the prefix table, from the C13 development --------------------------------------------- *)
+Lemma digit_name_char c : is_digit c = true -> is_name_char c = true /\ c <> COLON.
+Proof.
+  intros H. split.
+  - unfold is_name_char. change (between 48 57 c) with (is_digit c). rewrite H. rewrite orb_true_r. reflexivity.
+  - intros ->. discriminate H.
+Qed.
+Lemma generated_prefix_ncname i : is_ncname (NS_ ++ py_str_of_N i) = true.
+Proof.
+  unfold py_str_of_N. pose proof (uint_chars_digits (N.to_uint i)) as D. rewrite forallb_forall in D.
+  unfold is_ncname. apply andb_true_intro. split.
+  - unfold NS_. cbn [app is_name]. change (is_name_start 110%N) with true. cbn [andb forallb].
+    change (is_name_char 115%N) with true. cbn [andb]. apply forallb_forall. intros c Hc. apply digit_name_char. apply D. exact Hc.
+  - apply negb_true_iff. destruct (existsb (N.eqb COLON) (NS_ ++ uint_chars (N.to_uint i))) eqn:E; [|reflexivity].
+    apply existsb_exists in E. destruct E as [c [Hc Ec]]. apply N.eqb_eq in Ec. subst c.
+    apply in_app_or in Hc. destruct Hc as [Hc|Hc].
+    + unfold NS_ in Hc. cbn in Hc. destruct Hc as [Hc|[Hc|[]]]; discriminate Hc.
+    + exfalso. apply (proj2 (digit_name_char COLON (D _ Hc))). reflexivity.
+Qed.
+Lemma tables_ncname :
+  forallb (fun kv => is_ncname (fst kv)) (global_namespaces ++ common_namespaces) = true.
+Proof. vm_compute. reflexivity. Qed.
+
+Theorem pm_facts_of_collect caller data pm nss :
+  normalized caller data -> caller_prefixes_ncname caller -> Inv data pm -> c13_clauses caller nss pm -> pm_facts pm.
+Proof.
+  intros NZ CN [I1 [I2 I3]] HC. constructor.
+  - exact I1.
+  - exact I2.
+  - intros n p Hin. destruct (I3 _ _ Hin) as [[-> _]|[[_ [_ [i [-> _]]]]|[_ [q [Hq [HL ->]]]]]]; [left; reflexivity | right | right].
+    + exists (NS_ ++ py_str_of_N i). split; [apply nsd_name_eq | apply generated_prefix_ncname].
+    + exists q. split; [reflexivity|].
+      apply (lookup_prefix_iff _ _ _ _ NZ) in HL. apply (nz_origin _ _ NZ) in HL.
+      pose proof tables_ncname as T. rewrite forallb_forall in T.
+      destruct HL as [H|[[k [Hk Ek]]|H]].
+      * exact (T (q, n) (in_or_app _ _ _ (or_introl H))).
+      * destruct k as [p'|]; cbn [norm_prefix] in Ek; subst; [|contradiction].
+        destruct (CN _ _ Hk) as [->|H']; [contradiction | exact H'].
+      * exact (T (q, n) (in_or_app _ _ _ (or_intror H))).
+  - intros p Hin. destruct (I3 _ _ Hin) as [[-> _]|[[H _]|[H _]]]; [reflexivity | contradiction | contradiction].
+  - exact (c_xml _ _ _ HC).
+Qed.
+
+(* ---- C02 for clean trees ------------------------------------------------------------------------------------- *)
+Theorem roundtrip_clean t caller ord :
+  wf_tree t -> clean t = true -> valid_caller caller -> caller_prefixes_ncname caller ->
+  order_ok (bfs_of t) ord -> (N.of_nat (n_namespaces t + length caller + 17) < 2 ^ 16)%N ->
+  reparse (serialize caller ord t) = Some (merge_tree t).
+Proof.
+  intros [HT HW] HC HV CN HO HB.
+  destruct (collect_tree_clauses t caller ord HT HV HO HB) as [data [pm [EN [EC [HI CL]]]]].
+  pose proof (pm_facts_of_collect caller data pm (tree_nss t) (normalize_ok _ _ EN) CN HI CL) as PF.
+  unfold serialize. rewrite EC. cbn [bind reparse].
+  destruct t as [ns name attrs kids| | |]; try discriminate.
+  assert (COV : forall x, In x (tree_nss (Tag ns name attrs kids)) -> In x (dict_keys pm)).
+  { intros x Hx. destruct (c_covers _ _ _ CL x Hx) as [p Hp]. apply dict_get_In in Hp. eapply In_keys. exact Hp. }
+  assert (URI : forall n, In n (dict_keys pm) -> uri_ok n).
+  { intros n Hn. apply (wf_nss _ HW). destruct (collect_keys _ _ _ _ EC n Hn) as [->|Hn'].
+    - apply root_ns_in_tree_nss. reflexivity.
+    - apply (order_ok_same_set _ _ HO). exact Hn'. }
+  pose proof HW as HW0. cbn [wf_node] in HW. destruct HW as [H1 [H2 [H3 [H4 [H5 [H6 H7]]]]]]. apply wf_fix in H7.
+  set (E0 := decl_env (declared_attributes pm) ++ initial_env).
+  assert (OR : open_element initial_env (qname pm ns name) (root_tok_attrs pm attrs) = Some (E0, ns, name, attrs)).
+  { apply (open_root pm PF); try assumption.
+    - apply COV. apply tree_nss_tag. left. reflexivity.
+    - eapply attrs_in_of. exact COV. }
+  assert (KR : all_resolve E0 pm kids).
+  { unfold all_resolve. apply Forall_forall. intros k Hk. rewrite Forall_forall in H7. apply (wf_resolves pm PF k (H7 k Hk)).
+    intros x Hx. apply COV. apply tree_nss_tag. right. right. exists k. split; assumption. }
+  rewrite (render_root_toks E0 pm ns name attrs kids _ OR KR).
+  destruct (wf_root_toks_ok pm PF URI ns name attrs kids HW0 HC COV) as [TO TA].
+  exact (parse_render_root pm E0 ns name attrs kids OR KR TO TA).
+Qed.
